@@ -263,7 +263,13 @@ func (r *recView) GetValue(ctx context.Context, key []byte) ([]byte, error) {
 	if r.failKey != nil && string(r.failKey) == string(key) {
 		return nil, errInjectedRead
 	}
-	return r.View.GetValue(ctx, key)
+	v, err := r.View.GetValue(ctx, key)
+	if err == nil && len(v) == 0 {
+		// an existing key with the empty value: hand back a nil slice (what a merkledb view over uncommitted
+		// changes does); presence is decided by the error, never by the slice
+		return nil, nil
+	}
+	return v, err
 }
 
 func (r *recView) GetValues(ctx context.Context, keys [][]byte) ([][]byte, []error) {
@@ -1211,6 +1217,21 @@ func (s *Scenario) exactPatterns(r *rand.Rand) {
 		if r.Intn(6) == 0 {
 			s.Txs[0].Transfers[i].Value = all - uint64(r.Intn(3))
 		}
+	}
+	if r.Intn(2) == 0 && other < numSponsors {
+		// the account emptied (its record deleted) by the first transaction is refilled by a LATER transaction of the
+		// same block, with exactly the balance it had before the block (or one unit off)
+		s.Txs[0].Transfers = []TransferIn{{To: other, Value: 1}}
+		out1, err1 := s.execute(configs[0]) // the fee of the one-transfer shape
+		if err1 != nil || out1.ErrCls != 0 || len(out1.Results) == 0 || bal <= out1.Results[0].Fee {
+			return
+		}
+		all = bal - out1.Results[0].Fee
+		s.Txs[0].Transfers[0].Value = all
+		refill := TxIn{ChainOK: true, MaxFee: ^uint64(0), Sponsor: other, Actor: other, AuthOK: true, AuthCompute: 1, AuthStart: -1, AuthEnd: -1,
+			Nonce: uint64(len(s.Txs)), Expiry: s.Txs[0].Expiry, Transfers: []TransferIn{{To: sp, Value: bal - uint64(r.Intn(6)/5)}}}
+		rest := append([]TxIn{refill}, s.Txs[1:]...)
+		s.Txs = append(s.Txs[:1:1], rest...)
 	}
 }
 
